@@ -106,4 +106,22 @@ SumHeld(S, J, acc) == IF J = {} THEN acc
 BlockedDur(S, k, m) == SumHeld(S, { j \in KeyIdx(S, k) : S[j].val >= m }, 0)
 BlockedKeys(S, m) == { S[j].key : j \in { n \in DOMAIN S : S[n].val >= m } }
 BlockedRows(S, m) == { [m |-> m, stream |-> k, dur |-> BlockedDur(S, k, m)] : k \in BlockedKeys(S, m) }
+(***************************************************************************)
+(* Beyond the listed properties: summary statistics of a series per key    *)
+(* (get_queue_length_summary, get_memory_bw_summary): number of points,    *)
+(* smallest, largest and total value over the points J of the series (all  *)
+(* points for the queue length, the points with a positive value for the   *)
+(* bandwidth).  The mean is total / count, stated without division.        *)
+(***************************************************************************)
+PointsOfKey(S, J, k) == { j \in J : S[j].key = k }
+SummaryRow(S, J, k) == LET P == PointsOfKey(S, J, k) IN
+    [key |-> k, count |-> Cardinality(P), min |-> SetMin({ S[j].val : j \in P }), max |-> SetMax({ S[j].val : j \in P }),
+     total |-> SumSet(P, [j \in P |-> S[j].val])]
+SummaryRows(S, J) == { SummaryRow(S, J, k) : k \in { S[j].key : j \in J } }
+PositivePoints(S) == { j \in DOMAIN S : S[j].val > 0 }
+\* a reported row: count, min, max exact; mean * count within half a unit per point of the total (means are floats)
+SummaryRowOK(x, y) == /\ x.key = y.key /\ x.count = y.count /\ x.min = y.min /\ x.max = y.max
+                      /\ 2 * Abs(x.total - y.total) <= y.count
+SummaryOK(Reported, S, J) == /\ Cardinality(Reported) = Cardinality(SummaryRows(S, J))
+                             /\ \A y \in SummaryRows(S, J) : \E x \in Reported : SummaryRowOK(x, y)
 =============================================================================
